@@ -2,7 +2,9 @@
 EXTENDS TlsAccept, Json, IOUtils, TLC, Sequences, TraceUtil
 Rec == ndJsonDeserialize(IOEnv.TRACE)
 VARIABLE l
-Expected(e) == Accept(e.chain, e.expired, e.nameOK, [certs |-> e.certs, hosts |-> e.hosts, root |-> e.root, rootIsLeaf |-> e.rootIsLeaf], e.scope)
+Settings(e) == [certs |-> e.certs, hosts |-> e.hosts, root |-> e.root, rootIsLeaf |-> e.rootIsLeaf]
+Expected(e) == IF e.path \in {"tls-proxy-bad", "tls-proxy-good"} THEN AcceptBoth(e.chain, e.expired, e.nameOK, Settings(e), e.scope)
+               ELSE Accept(e.chain, e.expired, e.nameOK, Settings(e), e.scope)
 \* success only when authenticated (or waived) ...
 G14_noUnauthenticatedSuccess(e) == e.res = "ok" => Expected(e)
 \* ... and what each flag waives really is waived
@@ -11,6 +13,10 @@ G14_noUnauthenticatedSuccess(e) == e.res = "ok" => Expected(e)
 G14_waiverHonoured(e) == (Expected(e) /\ ~e.rootIsLeaf /\ e.pop) => e.res = "ok"
 \* a replayed certificate without its key is refused unless certificate checks are waived altogether
 G14_possessionProved(e) == PopOK(e.pop, [certs |-> e.certs, hosts |-> e.hosts, root |-> e.root, rootIsLeaf |-> e.rootIsLeaf], e.scope, e.res)
+\* beyond the listed properties (a note, never a violation): a refused peer is reported as a TLS error.
+\* Named deviation: the rustls back end reports handshake failures as Io(InvalidData) (the error of complete_io is
+\* converted through io::Error), not as ErrorKind::Tls.
+X_refusalIsATlsError(e) == e.res = "err" => (e.kind = "Tls" \/ (e.backend = "rustls" /\ e.kind = "Io:InvalidData"))
 TraceInit == l = 1
 TraceNext ==
   /\ l <= Len(Rec)
@@ -18,6 +24,7 @@ TraceNext ==
   /\ LET e == Rec[l] IN
      /\ (~G14_noUnauthenticatedSuccess(e)) => Viol(l, e.id, "C14", "G14_noUnauthenticatedSuccess", e.backend)
      /\ (~G14_waiverHonoured(e)) => Viol(l, e.id, "C14", "G14_waiverHonoured", e.backend \o " " \o e.kind)
+     /\ (~X_refusalIsATlsError(e)) => Viol(l, e.id, "X-error-kinds", "X_refusalIsATlsError", e.backend \o " " \o e.kind)
      /\ (~G14_possessionProved(e)) => Viol(l, e.id, "C14", "G14_possessionProved", e.backend \o " " \o e.tlsver)
 TraceSpec == TraceInit /\ [][TraceNext]_l
 TraceAccepted ==
